@@ -45,6 +45,31 @@ CHECKS = {
              "str.isspace are outside the model.",
         technique="Lean 4 proof over translator-generated tables + differential correspondence",
         design="§6 C18"),
+    "C13": dict(
+        text="Lean theorems: species-major layout (generated stateIndex = s*n+c, injective, in range), cell = z*w*h+y*w+x; the "
+             "generated default-generation constants (fallback key 'default', default density 0, default flag 0, state in the "
+             "network's units); entry (s,i) of the default state is the entry computed for species s and cell i and its SI value is "
+             "SI(density in env(i)) x SI(volume(i)) with dimension amount; default chemostat entry; get/set as an abstract map keyed by "
+             "the entry index incl. unit conversion of the written value (SI preserved), rejection of invalid positions/species without "
+             "writing; regeneration reflects the current species. Tie: translator IndexPy/SystemPy/GeomPy + correspondence of whole "
+             "construct+call sequences (grid and graph spaces, all naming forms, units systems at every level) + SI oracle on the real code.",
+        note="Lean kernel + {propext, Classical.choice, Quot.sound}; translator; correspondence harness; floats within 1e-9 relative; "
+             "unit strings parsed by the package itself (C18).",
+        technique="Lean 4 proof over translator-generated formulas + differential correspondence",
+        design="§6 C13"),
+    "C15": dict(
+        text="Lean theorems for all w,h,d>=1 and all 8 boundary settings: index<->coordinates bijection (index = z*w*h+y*w+x), rejection "
+             "iff the position names no cell (three position forms), are_neighbors symmetric and equal to face adjacency of distinct "
+             "cells per reflecting/periodic axis, engine neighbour table = per-axis step, involutive through opposed_direction, every entry "
+             "a face neighbour; generated rules of get_neighbors / kinetics loop / grid_to_graph tied to the face rules; grid_to_graph "
+             "geometry (S=a^2, d=a, volumes, environments); get_edge symmetric. Tie: translator IndexPy/GeomPy/EngineCpp + exhaustive "
+             "correspondence over all small grids (every cell, pair, position) incl. the real engine's neighbour set observed through "
+             "Euler steps and the kinetics functions' through derivatives + oracle; grid vs grid_to_graph trajectories / rate law on the real code.",
+        note="Lean kernel + {propext, Classical.choice, Quot.sound}; translator; correspondence harness. Partial: get_neighbors_iff / "
+             "kinetics_enum_iff / engine_nbr_iff (converse directions) and the grid_to_graph edge-multiset theorem are not proved for all "
+             "sizes (exhaustively checked for w,h,d<=3 quick / <=5 thorough); graph_rate_eq_grid_rate needs C01's engine model.",
+        technique="Lean 4 proof over translator-generated formulas + exhaustive differential correspondence",
+        design="§6 C15"),
 }
 
 ALL = ["C%02d" % i for i in range(1, 21)]
